@@ -314,32 +314,15 @@ func ReplayWALFile(path string, handler EntryHandler) (*RecoveryStats, error) {
 				break
 			}
 
-			// Check if this is a corruption error
+			// A damaged record ends the replay of this file. The format has no
+			// resynchronisation points: the damage may sit in the length field,
+			// so where the next record starts is not known, and guessing (this
+			// code used to skip 32KB ahead) lands inside keys and values whose
+			// bytes can then be taken for records and handed to the handler
 			if strings.Contains(err.Error(), "corrupt") ||
 				strings.Contains(err.Error(), "invalid") {
-				// Skip this corrupted entry
 				stats.EntriesSkipped++
-
-				// If we've seen too many corrupted entries in a row, give up on this file
-				if stats.EntriesSkipped > 5 && stats.EntriesProcessed == 0 {
-					return stats, fmt.Errorf("too many corrupted entries at start of file %s", path)
-				}
-
-				// Try to recover by scanning ahead
-				// This is a very basic recovery mechanism that works by reading bytes
-				// until we find what looks like a valid header
-				recoverErr := recoverFromCorruption(reader)
-				if recoverErr != nil {
-					if recoverErr == io.EOF {
-						// Reached the end during recovery
-						break
-					}
-					// Couldn't recover
-					return stats, fmt.Errorf("failed to recover from corruption in %s: %w", path, recoverErr)
-				}
-
-				// Successfully recovered, continue to the next entry
-				continue
+				break
 			}
 
 			// For other errors, fail the replay
@@ -355,24 +338,6 @@ func ReplayWALFile(path string, handler EntryHandler) (*RecoveryStats, error) {
 	}
 
 	return stats, nil
-}
-
-// recoverFromCorruption attempts to recover from a corrupted record by scanning ahead
-func recoverFromCorruption(reader *Reader) error {
-	// Create a small buffer to read bytes one at a time
-	buf := make([]byte, 1)
-
-	// Read up to 32KB ahead looking for a valid header
-	for i := 0; i < 32*1024; i++ {
-		_, err := reader.reader.Read(buf)
-		if err != nil {
-			return err
-		}
-	}
-
-	// At this point, either we're at a valid position or we've skipped ahead
-	// Let the next ReadEntry attempt to parse from this position
-	return nil
 }
 
 // ReplayWALDir replays all WAL files in the given directory in order
